@@ -3,9 +3,9 @@ package main
 func init() {
 	props["C12"] = propSpec{
 		level: "exploration",
-		rule: "seeded expression trees (depth <= 5, fan-out <= 4) of ers.Join / ers.Wrap / fmt.Errorf(%w) / errors.Join / Stack-in-Stack / ParsePanic over leaves {ers.Error constants, errors.New pointers, comparable struct errors, " +
+		rule: "seeded expression trees (depth <= 5, fan-out <= 4) of ers.Join / ers.Wrap / fmt.Errorf(%w) / errors.Join / Stack-in-Stack / ParsePanic / Wrapf / WithRecoverCall, WrapRecoverCall, WithRecoverDo / WithTime over leaves {ers.Error constants, errors.New pointers, comparable struct errors, " +
 			"typed pointer errors, shared sentinels, nil}, incl. operands that reach Join inside a foreign multi-error offering Unwind() []error with unset slots and nested aggregates; a multiset-of-constituents model written from the documentation predicts nil-ness, identity for a single plain error, errors.Is for every leaf and not for unrelated sentinels, " +
-			"errors.As for typed leaves, the Unwind multiset and (flat joins) newest-first order; plus concurrent erc.Collector runs (2-8 goroutines adding unique errors, nils, joins and %w wraps interleaved with Len/Resolve/Iterator/HasErrors, and resolvers that keep calling Resolve while the adders work); sequential Collector sessions that use every entry point (Add, Handler, Check, Collect, When, Recover, WithRecoverCall/Do, RecoverHook, Consume, Stream) with looks (Resolve, Future, Len, Iterator) in between. " +
+			"errors.As for typed leaves, the Unwind multiset and (flat joins) newest-first order; plus concurrent erc.Collector runs (2-8 goroutines adding unique errors, nils, joins and %w wraps interleaved with Len/Resolve/Iterator/HasErrors, and resolvers that keep calling Resolve while the adders work); sequential Collector sessions that use every entry point (Add, Handler, Check, Collect, When, Recover, WithRecoverCall/Do, RecoverHook, Consume, Stream) with looks (Resolve, Future, Len, Iterator) in between, incl. adding an error whose inspection panics (a typed-nil multi-error): the collector must stay usable (decided at quiescence). " +
 			"distinct_nontrivial = distinct tree shapes (operator nesting with leaf/nil positions) having >= 2 constituents, plus distinct collector configurations",
 		assumptions:   append([]string{"an empty *ers.Stack (non-nil value that reports Ok) is not used as an operand", "Unwind order is only asserted for flat joins of plain leaves (DESIGN 7g)"}, commonAssumptions...),
 		floorEvals:    5000,
